@@ -1059,7 +1059,7 @@ func genInput(r *lib.Rng, edge bool) Input {
 	in.Rel = lib.Pick(r, f.relNamesOnP())
 	rel := rels[in.Rel]
 	switch x := r.Intn(100); {
-	case x < 68:
+	case x < 52:
 		in.Mode = "preload"
 	case x < 82 && rel.Single:
 		in.Mode = "joins"
@@ -1239,6 +1239,54 @@ func genInput(r *lib.Rng, edge bool) Input {
 	return in
 }
 
+// sweepInputs: bounded-exhaustive sweep (thorough tier) over all pairs of composite string keys
+// built from a separator / nil heavy alphabet, as two has-many parents with one child each and as
+// two belongs-to owners of two targets.  Pairs on which ToStringKey collides carry a known
+// signature; every other pair must satisfy the property.
+func sweepInputs() []Input {
+	alpha := []string{"a", "b", "_", "a_", "_a", "nil", "a_b"}
+	var tuples [][]Val
+	for _, x := range alpha {
+		for _, y := range alpha {
+			tuples = append(tuples, []Val{VS(x), VS(y)})
+		}
+	}
+	null := []Val{VNull, VNull}
+	var out []Input
+	for i := range tuples {
+		for j := i + 1; j < len(tuples); j++ {
+			mk := func(uid int64, k, t []Val) Row {
+				row := Row{F: map[string]Val{"UID": VI(uid), "V": VI(uid % 10)}}
+				setKey(&row, []string{"A", "B"}, k)
+				setKey(&row, []string{"TA", "TB"}, t)
+				setKey(&row, []string{"BA", "BB"}, null)
+				return row
+			}
+			child := func(uid int64, fk []Val) Row {
+				row := Row{F: map[string]Val{"UID": VI(uid), "V": VI(uid % 10), "ID": VI(uid)}}
+				setKey(&row, []string{"PA", "PB"}, fk)
+				return row
+			}
+			target := func(uid int64, k []Val) Row {
+				row := Row{F: map[string]Val{"UID": VI(uid), "V": VI(uid % 10)}}
+				setKey(&row, []string{"A", "B"}, k)
+				return row
+			}
+			many := Input{Fam: "C", Rel: "Many", Mode: "preload", Shape: "slice", Cond: Cond{Kind: "all"}, Cond2: Cond{Kind: "all"},
+				Tables: map[string][]Row{
+					"P": {mk(101, tuples[i], null), mk(102, tuples[j], null)},
+					"M": {child(201, tuples[i]), child(202, tuples[j])}}}
+			bt := Input{Fam: "C", Rel: "Target", Mode: "preload", Shape: "ptrs", Cond: Cond{Kind: "all"}, Cond2: Cond{Kind: "all"},
+				Tables: map[string][]Row{
+					"P": {mk(101, []Val{VS("p"), VS("1")}, tuples[i]), mk(102, []Val{VS("p"), VS("2")}, tuples[j]),
+						mk(103, []Val{VS("p"), VS("3")}, []Val{VNull, tuples[j][1]})},
+					"T": {target(301, tuples[i]), target(302, tuples[j])}}}
+			out = append(out, many, bt)
+		}
+	}
+	return out
+}
+
 func shapeOf(in Input) string {
 	n := func(m string) int { return len(in.Tables[m]) }
 	flags := ""
@@ -1331,9 +1379,12 @@ func main() {
 		add("corpus", readInput(fpath))
 	}
 	r := lib.NewRng(a.Seed)
-	budget := 700
+	budget := 1500
 	if a.Tier == "thorough" {
 		budget = 12000
+		for _, in := range sweepInputs() {
+			add("sweep", in)
+		}
 	}
 	if a.N > 0 {
 		budget = a.N
